@@ -401,7 +401,12 @@ where
             }
         }
 
-        self.idle.entry(token).or_default().push(connection);
+        let idle = self.idle.entry(token).or_default();
+        if idle.len() < self.config.max_idle_per_host {
+            idle.push(connection);
+        } else {
+            trace!(?token, "idle connection limit reached, dropping connection");
+        }
     }
 
     fn pop(&mut self, token: Token) -> Option<C> {
